@@ -196,6 +196,9 @@ func main() {
 			exit = 1
 		}
 	}
+	if os.Getenv("L4DEBUG") == "steps" {
+		fmt.Println("DBG max block entries in one evaluation:", symStepsSeen)
+	}
 	os.Exit(exit)
 }
 
